@@ -12,8 +12,8 @@ import (
 )
 
 // C05 — the dispatcher never loses or duplicates a scheduled actor.
-// Real readyQueue + real worker.run loops under the controlled scheduler; localQueueCap and
-// globalQueueInitialCap are overridden to 2 so spill, growth and stealHalf-into-full are reached.
+// Real readyQueue + real worker.run loops under the controlled scheduler; localQueueCap (3) and
+// globalQueueInitialCap (2) are overridden so spill, growth and stealHalf-into-full are reached.
 
 type c05Item struct {
 	id     int
@@ -42,6 +42,7 @@ type c05Scenario struct {
 	repush  map[int]int
 	closer  bool
 	bound   int
+	prefill map[int][]int // worker id -> item ids placed in that worker's local ring before the window opens
 }
 
 func c05Queued(rq *readyQueue) []int {
@@ -80,6 +81,12 @@ func c05Run(t *testing.T, sc c05Scenario, c *vsched.Chooser) (out vsched.Outcome
 		for i, w := range d.workers {
 			i, w := i, w
 			s.GoDaemon(fmt.Sprintf("w%d", i), func() { w.run(); workerDone[i] = true })
+		}
+		for wid, ids := range sc.prefill {
+			for _, id := range ids {
+				rq.pushLocal(wid, &c05Item{id: id, h: h, repush: sc.repush[id]})
+				expected[id] = 1 + sc.repush[id]
+			}
 		}
 		pushersDone := 0
 		for pi, ids := range sc.pushers {
@@ -174,7 +181,7 @@ func c05Run(t *testing.T, sc c05Scenario, c *vsched.Chooser) (out vsched.Outcome
 
 func TestVerifC05(t *testing.T) {
 	defer vsched.Finish(t)
-	if localQueueCap != 2 || globalQueueInitialCap != 2 {
+	if localQueueCap != 3 || globalQueueInitialCap != 2 {
 		t.Fatalf("constant override missing: localQueueCap=%d globalQueueInitialCap=%d", localQueueCap, globalQueueInitialCap)
 	}
 	pb := vsched.Pick(2, 3)
@@ -183,10 +190,15 @@ func TestVerifC05(t *testing.T) {
 		{name: "2w-2p2-repush", workers: 2, pushers: [][]int{{1, 2}, {3, 4}}, repush: map[int]int{1: 1, 3: 2}, bound: pb},
 		{name: "2w-1p4-repush-spill", workers: 2, pushers: [][]int{{1, 2, 3, 4}}, repush: map[int]int{1: 1, 2: 1, 3: 1, 4: 1}, bound: pb},
 		{name: "3w-2p2-steal", workers: 3, pushers: [][]int{{1, 2, 3}, {4, 5}}, repush: map[int]int{1: 2, 2: 2, 4: 2}, bound: vsched.Pick(1, 2)},
+		// non-initial states: a worker's local ring already holds several actors (multi-item steal,
+		// steal into a non-empty ring, local overflow spilling into the global ring)
+		{name: "2w-prefill3-steal", workers: 2, pushers: [][]int{{4}}, prefill: map[int][]int{0: {1, 2, 3}}, bound: pb},
+		{name: "3w-prefill3+2-steal-repush", workers: 3, pushers: [][]int{{6}}, prefill: map[int][]int{0: {1, 2, 3}, 1: {4, 5}}, repush: map[int]int{1: 1, 4: 1}, bound: vsched.Pick(1, 2)},
+		{name: "2w-prefill3-repush-spill", workers: 2, pushers: [][]int{{4}}, prefill: map[int][]int{0: {1, 2, 3}}, repush: map[int]int{1: 1, 2: 1, 3: 1}, bound: pb},
 		{name: "2w-1p2-close", workers: 2, pushers: [][]int{{1, 2}}, repush: map[int]int{1: 1}, closer: true, bound: pb},
 		{name: "3w-2p2-close", workers: 3, pushers: [][]int{{1, 2}, {3}}, repush: map[int]int{1: 1, 3: 1}, closer: true, bound: vsched.Pick(1, 2)},
 	}
-	vsched.Rep().Assumption("sequentially consistent interleavings at shimmed sync/atomic operations; localQueueCap=2, globalQueueInitialCap=2 (overridden constants)")
+	vsched.Rep().Assumption("sequentially consistent interleavings at shimmed sync/atomic operations; localQueueCap=3, globalQueueInitialCap=2 (overridden constants)")
 	var all []vsched.Scenario
 	for _, sc := range scs {
 		sc := sc
